@@ -2037,10 +2037,13 @@ def remark_has_text(ctx: Ctx, rep: Report, rid: str = "R20.14") -> None:
             return True
         return setter_validates and isinstance(nd.ast, ast.Assign) and any(isinstance(t, ast.Attribute) and src(t) == "self.line" for t in nd.ast.targets)
 
-    if cfg.all_paths_pass(cfg.entry, cfg.exit, validates):
+    # path by path, leaving out the paths on which one unmodified local is tested both ways (`if not (line or ...): raise`
+    # followed by `if line:`)
+    bad_paths = [pi for pi in function_paths(cfg) if not pi.raises and not any(validates(nd_) for nd_, _lab in pi.nodes)]
+    if not bad_paths:
         rep.ok("Remark.__init__", "every returning path validates a text (keyword `text`, or the line through its setter)", where=where(f))
     else:
-        w = cfg.witness_path(cfg.entry, cfg.exit, validates)
+        w = [nd_ for nd_, _lab in bad_paths[0].nodes]
         conds = [snippet(n_.ast, 30) for n_ in w if n_.kind == "cond" and n_.ast is not None][-3:]
         rep.violation("Remark.__init__", f"path through [{'; '.join(conds)}] returns without a text", "a Remark is returned that has no text: it renders `remark` (or `10 remark`), which the same constructor refuses - copy() and every re-parse of an ACL that holds it raise / drop the line", where(f), inp="Remark('')  ->  line == 'remark';  Remark('remark') raises ValueError")
 
